@@ -934,6 +934,9 @@ def _insert_js_css_to_default_locations(
         did_modify_html = True
 
     if js_content is not None and last_end_body_tag_index is not None:
+        # The CSS shifts the position of `</body>` only if it was inserted BEFORE it
+        if first_end_head_tag_index is None or last_end_body_tag_index < first_end_head_tag_index:
+            index_offset = 0
         js_index = last_end_body_tag_index + index_offset
         updated_html = updated_html[:js_index] + js_content + updated_html[js_index:]
         did_modify_html = True
